@@ -9,6 +9,15 @@
                                    "msgs":[{"index":k,"lc":i,"rx":t,"ts":t,"ctrl":bool},...]}}   the input, in order
      {"ev":"out","uid":i,"index":k,"intact":b}   one per message handed to the outflow closure (uid from the payload tag,
                                         index = its index field, intact: equal to input message uid in every field)
+     BURST cases (hdr.kind = "burst": more messages inside the buffering window than the sorter preallocates, 10^6 and
+     more) carry the input as a few linear families instead of a message list, and ONE summary event instead of the
+     out events (a 10^6-event trace is too expensive to validate):
+       hdr: "msgs":[], "hash_in":h, "segs":[{"n":n,"q":q,"rx0":t,"rxs":d,"ts0":t,"tss":d,"lc":i,"idx0":k},...]
+            message j (0-based) of a segment: k = j div q, rx = rx0 + k*rxs, ts = ts0 + k*tss, index = uid = idx0 + j
+       {"ev":"burst_out","count":c,"hash":h,"not_intact":m,"first_inv":p,...}   c messages were handed to the outflow, h =
+            multiset hash (sum of the per-message hashes mod 2^31) of what came out (hash_in: of what went in), m = how
+            many differed from the input message of their uid, p = 0-based output position of the first message whose
+            key (calc, index) is smaller than its predecessor's, -1 if none (the driver scans with the calc of the family)
      {"ev":"end"}                       buffer_sort_messages returned Ok
      {"ev":"err"} / {"ev":"panic",..}   it returned Err although the outflow never fails / it panicked: no action matches
 
@@ -22,16 +31,18 @@
              input's index fields increase strictly along the input (narrower reading: then "original order" and
              index order coincide) - ties come in original order.  With repeated / unordered index fields no order
              among equal calculated times is required.
-     End:    nothing is pending (no loss).                                                                 *)
+     End:    nothing is pending (no loss).
+     BurstOut (burst cases): count = number of input messages, equal multiset hash, nothing altered; if boundOK - evaluated
+             here from the families (they are linear, so the extremes lie at the ends) - no inversion.                                                                 *)
 EXTENDS Integers, Sequences, FiniteSets, TLC, Json, IOUtils
 
 Rec == ndJsonDeserialize(IOEnv.TRACE)
 
-VARIABLES l, case, phase, hl, pending, lastC, lastI, bound, ties, viol
-vars == <<l, case, phase, hl, pending, lastC, lastI, bound, ties, viol>>
+VARIABLES l, case, phase, hl, pending, lastC, lastI, bound, ties, sumSeen, viol
+vars == <<l, case, phase, hl, pending, lastC, lastI, bound, ties, sumSeen, viol>>
 
 Init == /\ l = 1 /\ case = -1 /\ phase = "idle" /\ hl = 0 /\ pending = {} /\ lastC = 0 /\ lastI = -1 /\ bound = FALSE
-        /\ ties = FALSE /\ viol = {}
+        /\ ties = FALSE /\ sumSeen = FALSE /\ viol = {}
 
 Ev(e) == l <= Len(Rec) /\ Rec[l].ev = e /\ l' = l + 1
 Cur == Rec[l]
@@ -46,9 +57,24 @@ BoundOK(h) == /\ \A i \in 1..Len(h.msgs) : /\ InTable(h, h.msgs[i].lc)
 \* index fields strictly increasing along the input: index order = original order
 IndexOrdered(h) == \A i \in 1..(Len(h.msgs) - 1) : h.msgs[i].index < h.msgs[i + 1].index
 
+\* burst cases: the input is a list of linear families
+SegK(g) == (g.n - 1) \div g.q                                   \* last group number of a segment
+SegDelay(h, g, k) == (g.rx0 + k * g.rxs) - (StartOf(h, g.lc) + g.ts0 + k * g.tss)      \* rx - (start + ts)
+RECURSIVE SumN(_, _)
+SumN(sg, i) == IF i = 0 THEN 0 ELSE sg[i].n + SumN(sg, i - 1)
+BurstBoundOK(h) ==
+    /\ \A i \in 1..Len(h.segs) : LET g == h.segs[i] IN
+          /\ g.n >= 1 /\ g.q >= 1 /\ g.rxs >= 0 /\ InTable(h, g.lc)
+          /\ g.ts0 >= 0 /\ g.ts0 + SegK(g) * g.tss >= 0
+          /\ SegDelay(h, g, 0) >= 0 /\ SegDelay(h, g, 0) <= h.D                       \* (no capping, within the bound,
+          /\ SegDelay(h, g, SegK(g)) >= 0 /\ SegDelay(h, g, SegK(g)) <= h.D           \*  linear in k: extremes at the ends)
+          /\ g.idx0 = SumN(h.segs, i - 1)                                              \* consecutive indices
+    /\ \A i \in 1..(Len(h.segs) - 1) : h.segs[i].rx0 + SegK(h.segs[i]) * h.segs[i].rxs <= h.segs[i + 1].rx0
+IsBurst(h) == h.kind = "burst"
+
 Reset == /\ Ev("reset")
-         /\ case' = Cur.case /\ hl' = l /\ pending' = 0..(Len(Cur.hdr.msgs) - 1)
-         /\ LET b == BoundOK(Cur.hdr) IN bound' = b /\ PrintT(<<"BOUND", Cur.case, b, IndexOrdered(Cur.hdr)>>)   \* coverage information only
+         /\ case' = Cur.case /\ hl' = l /\ pending' = 0..(Len(Cur.hdr.msgs) - 1) /\ sumSeen' = FALSE
+         /\ LET b == IF IsBurst(Cur.hdr) THEN BurstBoundOK(Cur.hdr) ELSE BoundOK(Cur.hdr) IN bound' = b /\ PrintT(<<"BOUND", Cur.case, b, IndexOrdered(Cur.hdr)>>)   \* coverage information only
          /\ lastC' = 0 /\ lastI' = -1 /\ ties' = IndexOrdered(Cur.hdr)
          /\ phase' = "running"
          /\ viol' = IF phase = "running" THEN viol \cup {case} ELSE viol     \* previous case never ended
@@ -64,23 +90,30 @@ Out == /\ Ev("out") /\ phase = "running"
                                               ELSE lastC <= c)                        \* by calculated time
           /\ lastC' = c /\ lastI' = Cur.uid
        /\ pending' = pending \ {Cur.uid}
-       /\ UNCHANGED <<case, phase, hl, bound, ties, viol>>
+       /\ UNCHANGED <<case, phase, hl, bound, ties, sumSeen, viol>>
 
-End == /\ Ev("end") /\ phase = "running" /\ pending = {}
-       /\ phase' = "ended" /\ UNCHANGED <<case, hl, pending, lastC, lastI, bound, ties, viol>>
+BurstOut == /\ Ev("burst_out") /\ phase = "running" /\ IsBurst(Hdr) /\ ~sumSeen
+            /\ Cur.count = SumN(Hdr.segs, Len(Hdr.segs))             \* nothing lost, nothing invented or duplicated ...
+            /\ Cur.hash = Hdr.hash_in /\ Cur.not_intact = 0           \* ... the same multiset, unaltered
+            /\ (bound => Cur.first_inv = -1)                          \* ordered by (calculated time, index)
+            /\ sumSeen' = TRUE
+            /\ UNCHANGED <<case, phase, hl, pending, lastC, lastI, bound, ties, viol>>
 
-Matches == ENABLED Out \/ ENABLED End
+End == /\ Ev("end") /\ phase = "running" /\ pending = {} /\ (IsBurst(Hdr) => sumSeen)
+       /\ phase' = "ended" /\ UNCHANGED <<case, hl, pending, lastC, lastI, bound, ties, sumSeen, viol>>
+
+Matches == ENABLED Out \/ ENABLED End \/ ENABLED BurstOut
 Reject == /\ l <= Len(Rec) /\ Cur.ev # "reset" /\ phase = "running" /\ ~Matches
           /\ PrintT(<<"CASE_REJECTED", case, l, ToJson(Cur)>>)
           /\ l' = l + 1 /\ phase' = "rejected" /\ viol' = viol \cup {case}
-          /\ UNCHANGED <<case, hl, pending, lastC, lastI, bound, ties>>
+          /\ UNCHANGED <<case, hl, pending, lastC, lastI, bound, ties, sumSeen>>
 SkipRest == /\ l <= Len(Rec) /\ Cur.ev # "reset" /\ phase \in {"rejected", "ended", "idle"}
             /\ l' = l + 1
             /\ IF phase = "ended" THEN viol' = viol \cup {case} /\ phase' = "rejected"   \* events after `end`
                                   ELSE UNCHANGED <<viol, phase>>
-            /\ UNCHANGED <<case, hl, pending, lastC, lastI, bound, ties>>
+            /\ UNCHANGED <<case, hl, pending, lastC, lastI, bound, ties, sumSeen>>
 
-Next == Reset \/ Out \/ End \/ Reject \/ SkipRest
+Next == Reset \/ Out \/ BurstOut \/ End \/ Reject \/ SkipRest
 Spec == Init /\ [][Next]_vars
 
 AtEnd == l = Len(Rec) + 1
